@@ -118,16 +118,12 @@ def checkTag (t : Tags) (num : Nat) : Outcome Int :=
     | .err c => .ok c
     | .fault f => .fault f
 
-/-- the `libwifi_set_*_ssid` / `libwifi_set_*_channel` helpers: remove (when the list is not
-empty) and add back -/
-def setTag (t : Tags) (num : Nat) (data : Bytes) : Outcome (Int × Tags) :=
-  if t.length ≠ 0 then
-    match removeTag t num with
-    | .ok (0, t') => do let t'' ← quickAddTag t' num data; .ok (0, t'')
-    | .ok (c, t') => .ok (c, t')
-    | .err c => .err c
-    | .fault f => .fault f
-  else do let t' ← quickAddTag t num data; .ok (0, t')
+/-- the `libwifi_set_*_ssid` / `libwifi_set_*_channel` helpers: note whether the tag is present,
+add the new one, then remove the old (first) occurrence -/
+def setTag (t : Tags) (num : Nat) (data : Bytes) : Outcome (Int × Tags) := do
+  let had ← (if t.length ≠ 0 then do let c ← checkTag t num; pure (decide (c > 0)) else pure false)
+  let t' ← quickAddTag t num data
+  if had then removeTag t' num else .ok (0, t')
 
 inductive TagOp where
   | add (num : Nat) (data : Bytes)
